@@ -865,6 +865,16 @@ func checkC08(r *Run) {
 			}
 		})
 		if apply == nil {
+			// the update written out in the request itself: a store to the list of a value built from
+			// the list and the request's own argument
+			if st, why := c.directListUpdate(g, a.SubEst, req.Params[len(req.Params)-1], api.Req == "subscribe"); st != nil {
+				if !Dominated(g, call, func(in ssa.Instruction) bool { return in == ssa.Instruction(st) }, PathQ{}) {
+					r3.Bad(k, st.Pos(), "the established list is updated only after BaseClient.%s returned: by then the request's arguments may have been rewritten by the library (Subscribe overwrites the requested QoS with the granted one), and a failed request is not recorded at all", api.Base)
+					continue
+				}
+				r3.OK(k, st.Pos(), "%s; the store dominates BaseClient.%s", why, api.Base)
+				continue
+			}
 			r3.Bad(k, g.Pos(), "the %s request does not record its effect in the established-subscription list: a later reconnect without session re-subscribes a stale view", api.Req)
 			continue
 		}
@@ -1036,4 +1046,88 @@ func (c *Ctx) ruleErrBeforeDone(rr *RuleRep) {
 		return
 	}
 	rr.OK(FuncName(reader)+"/err-before-done", se.Pos(), "SetErrorOnce precedes close(Done())")
+}
+
+// directListUpdate finds, in the request closure g, a store to the established-list field whose value is
+// built from the list itself and the request's own argument: for a subscribe, the list with the argument
+// appended; for an unsubscribe, a re-slice of the list in a function that walks the argument.
+func (c *Ctx) directListUpdate(g *ssa.Function, fld *types.Var, reqParam *ssa.Parameter, add bool) (*ssa.Store, string) {
+	rootedAtList := func(v ssa.Value) bool {
+		seen := map[ssa.Value]bool{}
+		var walk func(v ssa.Value) bool
+		walk = func(v ssa.Value) bool {
+			v = stripConv(c.Resolve(v))
+			if seen[v] {
+				return false
+			}
+			seen[v] = true
+			if _, ok := isLoadOfField(v, fld); ok {
+				return true
+			}
+			switch x := v.(type) {
+			case *ssa.Slice:
+				return walk(x.X)
+			case *ssa.Phi:
+				for _, e := range x.Edges {
+					if walk(e) {
+						return true
+					}
+				}
+			}
+			return false
+		}
+		return walk(v)
+	}
+	isParam := func(v ssa.Value) bool {
+		return c.Resolve(stripConv(c.Resolve(v))) == ssa.Value(reqParam)
+	}
+	var found *ssa.Store
+	why := ""
+	eachInstr(g, func(in ssa.Instruction) {
+		st, ok := in.(*ssa.Store)
+		if !ok || found != nil {
+			return
+		}
+		if _, isSE := isAddrOfField(st.Addr, fld); !isSE {
+			return
+		}
+		if add {
+			base, elems, ok := c.appendChain(st.Val)
+			if !ok || !rootedAtList(base) {
+				return
+			}
+			for _, e := range elems {
+				if e.Spread != nil && isParam(e.Spread) {
+					found, why = st, "the list is stored back with the request's own argument appended"
+				}
+			}
+			return
+		}
+		if _, ok := stripConv(c.Resolve(st.Val)).(*ssa.Slice); !ok || !rootedAtList(st.Val) {
+			return
+		}
+		walked := false
+		for _, u := range *reqParam.Referrers() {
+			switch u.(type) {
+			case *ssa.Range, *ssa.IndexAddr, *ssa.Index:
+				walked = true
+			}
+		}
+		eachInstr(g, func(in2 ssa.Instruction) {
+			switch x := in2.(type) {
+			case *ssa.IndexAddr:
+				if isParam(x.X) {
+					walked = true
+				}
+			case *ssa.Range:
+				if isParam(x.X) {
+					walked = true
+				}
+			}
+		})
+		if walked {
+			found, why = st, "the list is stored back re-sliced, in a walk over the request's own argument"
+		}
+	})
+	return found, why
 }
